@@ -7,10 +7,11 @@ import re
 import framework as fw
 
 TIE = []
-PROPS = ["Nsq.Props.C20N2NTool", "Nsq.Props.C20Refuse"]
+PROPS = ["Nsq.Props.C20N2NTool", "Nsq.Props.C20Refuse", "Nsq.Props.C20Get"]
 N2N_FILES = ["e8/n2n_giveup_test.go"]
 TONSQ_FILES = ["e8/tonsq_refuse_test.go"]
 GIVEUP_KEY = "gives-up-after-max-attempts"
+GET_KEY = "get-template-stray-percent"
 
 
 def unhex(s):
@@ -243,6 +244,103 @@ def tonsq_refuse(ctx, b_tonsq, corr_broken):
           nontrivial=lambda o, i: i.startswith("exit=1"))
 
 
+# ------------------------------------------------------------------ C23: nsq_to_http GET request target
+
+def _py_clean(t):
+    """every % of the template is part of %% or of the single %s (scan left to right); returns (clean, pieces)"""
+    pieces, i, nargs = [], 0, 0
+    while i < len(t):
+        if t[i:i + 1] == b"%":
+            nxt = t[i + 1:i + 2]
+            if nxt == b"s":
+                pieces.append(None)
+                nargs += 1
+            elif nxt == b"%":
+                pieces.append(b"%")
+            else:
+                return False, None
+            i += 2
+        else:
+            pieces.append(t[i:i + 1])
+            i += 1
+    return nargs == 1, pieces
+
+
+def n2h_get(ctx, corr_broken):
+    import urllib.parse
+    b = ctx.go_test_binary("apps/nsq_to_http", ["e8/n2h_get_test.go"], "e8n2hget", pkgname="main")
+    if not b:
+        ctx.broken_ties.append("harness e8/n2h_get_test.go does not compile against the current tree")
+        return
+    out = os.path.join(ctx.work, "n2h_get")
+    os.makedirs(out, exist_ok=True)
+    rc, log = ctx.run_cmd([b, "-test.run", "^TestVerifN2HGet$", "-test.count=1"], timeout=ctx.budget(300, 1200),
+                          env={"VERIF_SEED": ctx.seed, "VERIF_N": ctx.budget(150, 3000), "VERIF_OUT": out})
+    if "ORACLE-DONE" not in log:
+        ctx.log("n2h GET harness failed:\n%s" % log[-1500:])
+        corr_broken.append("n2h GET harness exit %s" % rc)
+        return
+    opsf = os.path.join(out, "n2h_get.ops")
+    ops = open(opsf).read().splitlines()
+    impl = open(os.path.join(out, "n2h_get.impl")).read().splitlines()
+    rc2, mout = ctx.driver("e8", stdin_path=opsf)
+    model = mout.splitlines()
+    stats = {"clean": 0, "unclean": 0, "unclean_accepted_with_junk": 0, "unclean_error": 0, "byte_values": set()}
+    ndiff = 0
+    junk = []
+    for idx, (o, i) in enumerate(zip(ops, impl)):
+        w = o.split()
+        tmpl, body = unhex(w[2]), unhex(w[3])
+        m = model[idx] if idx < len(model) else "missing"
+        ctx.count_case(o, nontrivial=len(body) > 0)
+        ok_py, pieces = _py_clean(tmpl)
+        saw = i.split("uri=")[1]
+        if (m != "main=1 unclean") != ok_py:
+            corr_broken.append("GET template cleanliness: model %s, python %s for %r" % (m[:30], ok_py, tmpl))
+            continue
+        if not ok_py:
+            stats["unclean"] += 1
+            if saw not in ("none",) and not saw.startswith("many") and b"%!" in unhex(saw):
+                stats["unclean_accepted_with_junk"] += 1
+                junk.append((tmpl, body, unhex(saw)))
+            else:
+                stats["unclean_error"] += 1
+            continue
+        stats["clean"] += 1
+        stats["byte_values"].update(body)
+        # correspondence (model) and the independent rendering (python urllib)
+        if i != m:
+            ndiff += 1
+            if ndiff <= 3:
+                ctx.log("n2h GET model/impl disagree on `%s`:\n   impl =%s\n   model=%s" % (o[:200], i[:240], m[:240]))
+        want = b"".join(urllib.parse.quote_plus(body, safe="").encode() if x is None else x for x in pieces)
+        got = None if saw == "none" or saw.startswith("many") else unhex(saw)
+        if got != want:
+            ctx.violation("n2h-get-endpoint", "nsq_to_http GET: template %r, body %s: the destination saw %r, expected %r"
+                          % (tmpl.decode("latin1"), hexs(body), got, want), o + "\nimpl: " + i + "\n")
+            continue
+        # the destination's view: strip the template's fixed text, unquote → the body, byte for byte
+        k = pieces.index(None)
+        pre, suf = b"".join(pieces[:k]), b"".join(pieces[k + 1:])
+        mid = got[len(pre):len(got) - len(suf)] if suf else got[len(pre):]
+        if urllib.parse.unquote_to_bytes(mid.replace(b"+", b" ")) != body:
+            ctx.violation("n2h-get-body", "nsq_to_http GET: template %r: the destination decodes %r, the body is %s"
+                          % (tmpl.decode("latin1"), mid, hexs(body)), o + "\nimpl: " + i + "\n")
+    if ndiff:
+        corr_broken.append("correspondence n2h GET endpoint (%d lines)" % ndiff)
+    stats["byte_values"] = len(stats["byte_values"])
+    ctx.corr.setdefault("audit7_b", {})["n2h_get"] = dict(stats, lines=len(ops),
+                                                           junk_samples=[(t.decode("latin1"), s.decode("latin1")) for t, _, s in junk[:4]])
+    if ops:
+        ctx.add_sample({"op": ops[0][:160], "impl": impl[0][:160]})
+    # open finding: a template that passes main()'s check, is not clean, and whose junk request the destination ACCEPTED
+    # (Publish returned nil → the message is finished)
+    for tmpl, body, saw in junk[:1]:
+        ctx.violation(GET_KEY, "nsq_to_http --get %r (passes main()'s check): request target %r was sent and accepted for body %s"
+                      % (tmpl.decode("latin1"), saw.decode("latin1"), hexs(body)),
+                      "template=%s body=%s saw=%s\n" % (tmpl.decode("latin1"), hexs(body), saw.decode("latin1")))
+
+
 def declare(ctx):
     ctx.trusted += [
         "audit round 7: go-nsq Producer fails every transaction of a dropped connection and answers transactions of one "
@@ -250,6 +348,9 @@ def declare(ctx):
         "independent oracles (JSON stage over the input body, query escaping)",
     ]
     ctx.assumptions += [
+        "get_endpoint_clean / get_body_recoverable: the --get template is clean (every % belongs to the single %s or to a %%); "
+        "main()'s check strings.Count(addr, \"%s\") == 1 does not guarantee it (get_main_check_sufficient_false, open finding "
+        "get-template-stray-percent, replayed on the real GetPublisher)",
         "to_nsq_records / to_nsq_records_if_accepted: every destination acknowledges every record (otherwise the tool is "
         "fail-stop: exit status 1 at the first refused record, later records are not published: "
         "to_nsq_published_until_refusal, to_nsq_records_unconditional_false; replayed on the real binary)",
